@@ -77,7 +77,7 @@ def execute(case):
     full = files[target]
     fails = []
     outcomes = {}
-    with harness.Product(files, "mcfs") as prod:
+    with harness.Product(files, case.get("fs", "mcfs")) as prod:
         intact = intact_event_count(prod, rpc)
         for cut in case["cuts"]:
             prod.put(target, full[:cut])
@@ -295,6 +295,9 @@ def plan(tier):
                 cuts = sorted(p for p in pts if 0 <= p <= n_img)
             for c in chunks(cuts, 40):
                 cases.append({"fn": "execute", "type": tc, "rpc": rpc, "file": "img", "cuts": c})
+            if rpc in (2, 1024):  # the same cuts on an async fsspec implementation (http / s3 / gcs are of that kind)
+                for c in chunks(cuts, 40):
+                    cases.append({"fn": "execute", "type": tc, "rpc": rpc, "file": "img", "cuts": c, "fs": "amcfs"})
         led_cuts = range(0, n_led + 1) if tier == "thorough" else boundaries(tc, "led", 256)
         for c in chunks(led_cuts, 40):
             cases.append({"fn": "execute", "type": tc, "rpc": 2, "file": "led", "cuts": c})
@@ -303,7 +306,7 @@ def plan(tier):
             cases.append({"fn": "execute", "type": tc, "rpc": 2, "file": "vol", "cuts": c})
         for missing in ("summary", "vol", "led", "img0", "img1", "trl"):
             for use_cache in (True, False):
-                for fs in ("mcfs", "local", "memory"):
+                for fs in ("mcfs", "local", "memory", "amcfs"):
                     for rpc in (1, 1024):
                         cases.append({"fn": "execute_missing", "type": tc, "missing": missing, "use_cache": use_cache, "fs": fs, "rpc": rpc})
     for tc in ("IU2", "C*8"):
@@ -324,7 +327,7 @@ def plan(tier):
 def run(res, tier, seed):
     res.rule = (
         "every truncation length 0..size of a 4x3 image x rpc{1,2,4,5,1024} x type through sar_image.open_image, and through"
-        " open_alos2 at every length (thorough) or all record/field boundaries +-1 + every 16th byte (quick); leader and"
+        " open_alos2 at every length (thorough) or all record/field boundaries +-1 + every 16th byte (quick), also on an async fsspec filesystem; leader and"
         " volume directory cut at every length (thorough) / every layout field boundary +-1 + stride (quick); every single"
         " missing file x use_cache x 3 filesystems; every file cut in place after an intact open in the same process (modification time kept / new; local and mcfs); images of 19 / 19 / 72 MB cut at the boundaries +-1 of the first, middle and last records, inside their" " prefixes and pixel data and at every power of two 2^20..2^27 +-1, x rpc {default, 8, 64, 4096}. A case is a batch of cuts of one file; all are non-trivial (each cut is"
         " a distinct byte length and is executed on the real code)."
